@@ -165,6 +165,49 @@ Theorem C11g_link_picks :
 Proof. exact link_picks. Qed.
 Print Assumptions C11g_link_picks.
 
+Theorem C11g_link_insert :
+  forall (x : CharSet) (l : list CharSet),
+       map conv (insert_by_key_N (fun c : CharSet => CharSet_start c) x l) =
+       insert_by_start (conv x) (map conv l).
+Proof. exact link_insert. Qed.
+Print Assumptions C11g_link_insert.
+
+Theorem C11g_link_sort :
+  forall l : list CharSet,
+       map conv (sort_by_key_N (fun c : CharSet => CharSet_start c) l) = sort_by_start (map conv l).
+Proof. exact link_sort. Qed.
+Print Assumptions C11g_link_sort.
+
+Theorem C11g_link_scan1 :
+  forall (l : list CharSet) (w : N) (prev : CharSet),
+       Forall valid_end l ->
+       scan_res (CharPartition_try_from_iter_loop1 l w prev) =
+       Some (scan_sorted (conv prev) w (map conv l)).
+Proof. exact link_scan1. Qed.
+Print Assumptions C11g_link_scan1.
+
+Theorem C11g_link_scan2 :
+  forall (l : list CharSet) (w : N) (prev : CharSet),
+       Forall valid_end l ->
+       scan_res (CharPartition_try_from_iter_loop2 l w prev) =
+       Some (scan_sorted (conv prev) w (map conv l)).
+Proof. exact link_scan2. Qed.
+Print Assumptions C11g_link_scan2.
+
+Theorem C11g_link_try_from_iter :
+  forall l : list CharSet,
+       Forall valid_end l ->
+       try_res (M_CharPartition_try_from_iter l) = Some (ptry_from_list (map conv l)).
+Proof. exact link_try_from_iter. Qed.
+Print Assumptions C11g_link_try_from_iter.
+
+Theorem C11g_link_try_from_list :
+  forall l : list CharSet,
+       Forall valid_end l ->
+       try_res (M_CharPartition_try_from_list l) = Some (ptry_from_list (map conv l)).
+Proof. exact link_try_from_list. Qed.
+Print Assumptions C11g_link_try_from_list.
+
 (* ---- the C11 statements on the translated code ---- *)
 
 Theorem C11g_new_wf :
@@ -284,6 +327,29 @@ Theorem C11g_picks :
          Forall2 (fun (c : ClassId) (x : N) => good x /\ in_class (convp p) x (convc c)) l xs.
 Proof. exact g_picks. Qed.
 Print Assumptions C11g_picks.
+
+Theorem C11g_try_from_iter_ok :
+  forall l : list CharSet,
+       Forall gvalid l ->
+       pairwise_disjoint (map conv l) ->
+       exists p : CharPartition,
+         M_CharPartition_try_from_iter l = Some (Ok p) /\
+         gwf p /\ Permutation.Permutation (map conv l) (ivs (convp p)).
+Proof. exact g_try_from_iter_ok. Qed.
+Print Assumptions C11g_try_from_iter_ok.
+
+Theorem C11g_try_from_iter_err :
+  forall l : list CharSet,
+       Forall gvalid l ->
+       ~ pairwise_disjoint (map conv l) ->
+       M_CharPartition_try_from_iter l = Some (Err Error_NonDisjointCharSets).
+Proof. exact g_try_from_iter_err. Qed.
+Print Assumptions C11g_try_from_iter_err.
+
+Theorem C11g_try_from_list_same :
+  forall l : list CharSet, M_CharPartition_try_from_list l = M_CharPartition_try_from_iter l.
+Proof. exact g_try_from_list_same. Qed.
+Print Assumptions C11g_try_from_list_same.
 
 Theorem C11g_example :
   let p :=
